@@ -167,6 +167,21 @@ CLAIMED["C02"] = (
     "DESIGN.md §5 C02",
 )
 
+CLAIMED["C05"] = (
+    "Kernel-checked theorem over a lexer model of the XML reader (entity/character references, attribute-value and "
+    "line-end normalisation, the ]]> rule): if a sink's per-character escaping table is safe for its context then for "
+    "EVERY caller string the parser delivers exactly that string and never meets a character that would close the "
+    "attribute, open a tag or form ]]> (by induction on the string).  The table of every template sink is MEASURED on each "
+    "run by probing the public entry point with sentinel strings while recording what is handed to the parser, and the "
+    "safety of each measured table is closed by `decide` (rows regenerated; an unsafe sink breaks a named obligation and "
+    "the special character that breaks it is the replay).  Seeded metacharacter strings then go through all 21 entry "
+    "points (template and lxml-API sinks): must return, read back equal, same element structure, also after re-open.",
+    "Trusted: per-character-map assumption (validated by seeded strings), lxml's own escaping for API sinks, the maintained "
+    "entry-point list, the parser interception used for probing.",
+    "Lean 4 proof (lexer model, induction on strings) + probed escaping tables with `decide` obligations + seeded round-trip",
+    "DESIGN.md §5 C05",
+)
+
 NOT_YET = {}
 
 
